@@ -20,7 +20,7 @@ open JsightVerif.Gen
 
 section
 variable (inputs : List UInt8) (reachAt : St → List (RKey St)) (ht : TableOk Gen.prog inputs reachAt)
-  (hroot : (reachAt .stateRoot).contains ([], [], 0, true, [], 0, false) = true)
+  (hroot : (reachAt .stateRoot).contains ([], [], 0, true, [], 0, false, 1) = true)
 
 /-- covered, with byte-loop potential at most `4·|file| + 11` (below the fuel `Core.run` gives `Next`) -/
 def GoodF (env : Env) (s : Sc St) : Prop := ∃ B, GoodP env reachAt (4 * env.size + 11) B s
@@ -52,8 +52,8 @@ include ht in
 theorem next_both (env : Env) (s : Sc St) (hF : GoodF reachAt env s) :
     match next env Gen.prog (scanFuel env) s with
     | .error f => ¬ Crash f ∧ f ≠ .fuel
-    | .ok (lex, s') => GoodF reachAt env s' ∧ (∀ l, lex = some l → WFLex env.size l ∧ LexPh s.ph s'.ph l) ∧
-        (lex = none → s'.ph = s.ph) := by
+    | .ok (lex, s') => GoodF reachAt env s' ∧ (∀ l, lex = some l → WFLex env.size l ∧ LexPh s.ph s'.ph l ∧ LexOrd s.le s'.le l) ∧
+        (lex = none → s'.ph = s.ph ∧ s'.le = s.le) := by
   obtain ⟨B, hP⟩ := hF
   have h1 := next_sound env Gen.prog inputs reachAt ht (scanFuel env) s hP.good
   have h2 := next_prog env Gen.prog inputs reachAt ht (scanFuel env) (4 * env.size + 11) B s hP (by simp only [scanFuel]; omega)
@@ -308,7 +308,7 @@ theorem run_safe (fsys : FileSys) (n : Nat) : ∀ (c : Core), ScansGood reachAt 
       cases lex with
       | some l =>
         dsimp only at h
-        obtain ⟨hl, hneed, hph1⟩ := hwf l rfl
+        obtain ⟨hl, ⟨hneed, hph1⟩, _⟩ := hwf l rfl
         have hJ1 : ∀ (res : Bool), ScansGood reachAt ({ ({ c with current := { c.current with sc := sc' } } : Core) with resumed := res }) :=
           fun _ => ⟨hg', hJ.2⟩
         split at h
@@ -478,7 +478,7 @@ theorem run_total_single (fsys : FileSys) (hfs : NoFiles fsys) (n : Nat) : ∀ (
           trivial
       | some l =>
         rintro ⟨hg', hwf, _⟩ ⟨B', hB', hP'⟩
-        obtain ⟨hl, hneed, hph1⟩ := hwf l rfl
+        obtain ⟨hl, ⟨hneed, hph1⟩, _⟩ := hwf l rfl
         dsimp only
         simp only [hres, Bool.false_eq_true, if_false]
         split
